@@ -1,0 +1,31 @@
+//go:build verif
+
+package verifhook
+
+import "sync/atomic"
+
+// Handler is called at every yield point; it may block the calling goroutine.
+type Handler func(point string, key any)
+
+var handler atomic.Pointer[Handler]
+
+// SetHandler installs h (nil removes it) and returns the previous handler.
+func SetHandler(h Handler) Handler {
+	var prev *Handler
+	if h == nil {
+		prev = handler.Swap(nil)
+	} else {
+		prev = handler.Swap(&h)
+	}
+	if prev == nil {
+		return nil
+	}
+	return *prev
+}
+
+// Yield hands control to the installed handler, if any.
+func Yield(point string, key any) {
+	if h := handler.Load(); h != nil {
+		(*h)(point, key)
+	}
+}
